@@ -248,6 +248,57 @@ impl World {
         (res, new_issuer)
     }
 
+    /// A second `KeyPair` object for the key in this slot (re-loaded / re-wrapped), or None.
+    pub fn second_key_object(&self, slot: usize) -> Option<rcgen::KeyPair> {
+        let k = self.keys.get(slot)?;
+        if k.is_remote() {
+            return Some(remote_key_pair(slot, k.sim.clone(), self.bus.clone(), None));
+        }
+        #[cfg(feature = "crypto")]
+        {
+            let l = match &k.custody {
+                Custody::Local(l) => *l,
+                Custody::Native(l) => nearest_loader(*l),
+                Custody::Remote => return None,
+            };
+            return crate::keys::load_local(&k.sim, l).ok();
+        }
+        #[allow(unreachable_code)]
+        None
+    }
+
+    /// `Issue` with the subject given as another KeyPair object for the same key.
+    pub fn exec_issue_with_subject(&self, op: &Op, subject_kp: &rcgen::KeyPair) -> Option<OpResult> {
+        let Op::Issue { issuer, subject, recipe, .. } = op else { return None };
+        let iss = self.issuers.get(*issuer)?;
+        let ik = &self.keys[iss.key];
+        let call0 = self.bus.n_calls();
+        let params = recipe.build();
+        let expect = params.clone();
+        let mut res = OpResult { ret: Ret::Skipped("?"), artefacts: vec![], calls: vec![], params_preserved: None, params_detail: String::new() };
+        match guarded(|| params.signed_by(subject_kp, &iss.cert, &ik.kp)) {
+            Ok(Ok(cert)) => {
+                let der = cert.der().to_vec();
+                res.params_preserved = Some(*cert.params() == expect);
+                res.artefacts.push(Artefact {
+                    kind: "cert",
+                    der: der.clone(),
+                    signer: iss.key,
+                    requester: None,
+                    calls: self.bus.calls_since(call0),
+                    subject: Some(*subject),
+                    alt: cert_forms(&cert),
+                    own_key: None,
+                });
+                res.ret = Ret::Ok(der);
+            }
+            Ok(Err(e)) => res.ret = Ret::Err(err_name(&e)),
+            Err(p) => res.ret = Ret::Panic(p),
+        }
+        res.calls = self.bus.calls_since(call0);
+        Some(res)
+    }
+
     /// Like `exec_ro`, but with certificate parameters the caller built some other way than
     /// `recipe.build()` (same value, different object history). Only for SelfSign/Issue/Csr.
     pub fn exec_with_params(&self, op: &Op, params: rcgen::CertificateParams) -> OpResult {
